@@ -607,3 +607,11 @@ package lang
 //@ func (*MurexFuncs).Define [C22]
 //@   check none
 //@   ensures imp(mf.fn != nil, has(mf.fn, name) && mf.fn[name].FileRef == fileRef && mf.fn[name].Block == block && mf.fn[name].Parameters == parameters)
+
+// ---- C39: KillForks hands every fork process the requested exit number and cancels it --------------
+//@ func (*Process).KillForks [C39]
+//@   check none
+//@   at call dynamic#* modifies nothing
+//@   at call (*ForkManagement).GetForks#* modifies nothing
+//@   at store ExitNum#* assert arg1 == exitNum
+//@   at call dynamic#* assert callee == (*procs)[i].Done
